@@ -32,6 +32,10 @@ type RouteItem struct {
 	// Run goroutine has read the id off the new stream (hook point mux.run.gotID), by a goroutine that
 	// spins on a flag: both reach the pending-entry lookup within a microsecond of each other
 	LineUp bool `json:"lineUp,omitempty"`
+	// ReuseAfterMs (mux): the id was used before: an earlier pair on it is run to completion (connected, data
+	// exchanged, both ends closed), and the judged pair's first call is issued this long after that earlier
+	// pair's dial
+	ReuseAfterMs int `json:"reuseAfterMs,omitempty"`
 	// HoldAtGotInfoMs (grpc, no mux): the Dial is held this long between receiving the listener's address and
 	// connecting to it (hook point grpcbroker.dial.gotInfo; a slow address translator does the same)
 	HoldAtGotInfoMs int `json:"holdAtGotInfoMs,omitempty"`
